@@ -349,12 +349,18 @@ func extractAnnouncedTrailers(header http.Header) http.Header {
 	return trailers
 }
 
+// validTrailerToSend reports whether a field may be sent in a trailer section:
+// it must be a valid trailer field and not connection-specific (which parseTrailers rejects).
+func validTrailerToSend(k string) bool {
+	return httpguts.ValidTrailerHeader(k) && !slices.Contains(invalidHeaderFields[:], strings.ToLower(k))
+}
+
 // writeTrailers encodes and writes HTTP trailers as a HEADERS frame.
 // It returns true if trailers were written, false if there were no trailers to write.
 func writeTrailers(wr io.Writer, trailers http.Header, streamID quic.StreamID, qlogger qlogwriter.Recorder) (bool, error) {
 	var hasValues bool
 	for k, vals := range trailers {
-		if httpguts.ValidTrailerHeader(k) && len(vals) > 0 {
+		if validTrailerToSend(k) && len(vals) > 0 {
 			hasValues = true
 			break
 		}
@@ -374,7 +380,7 @@ func writeTrailers(wr io.Writer, trailers http.Header, streamID quic.StreamID, q
 		if len(vals) == 0 {
 			continue
 		}
-		if !httpguts.ValidTrailerHeader(k) {
+		if !validTrailerToSend(k) {
 			continue
 		}
 		lowercaseKey := strings.ToLower(k)
